@@ -49,9 +49,24 @@ class ClassInfo(object):
         self.attrs = {}               # class-level simple assignments name -> ast expr
         self.properties = {}          # name -> (getter FuncInfo|None, setter FuncInfo|None)
         self.bases = [b for b in node.bases]
+        deco_props = {}
         for st in node.body:
             if isinstance(st, (ast.FunctionDef,)):
                 fi = FuncInfo(st, module, '%s.%s' % (self.qual, st.name), cls=self, guard=guard)
+                # @property / @name.setter: the decorator spelling of name = property(getter, setter) - both functions carry the property's name
+                kind = None
+                for dec in st.decorator_list:
+                    if isinstance(dec, ast.Name) and dec.id == 'property':
+                        kind = 0
+                    elif isinstance(dec, ast.Attribute) and dec.attr == 'setter' and isinstance(dec.value, ast.Name) and dec.value.id == st.name:
+                        kind = 1
+                    elif isinstance(dec, ast.Attribute) and dec.attr in ('deleter', 'getter') and isinstance(dec.value, ast.Name) and dec.value.id == st.name:
+                        kind = 2 if dec.attr == 'deleter' else 0
+                if kind is not None:
+                    cur = deco_props.setdefault(st.name, [None, None])
+                    if kind in (0, 1):
+                        cur[kind] = fi
+                    continue
                 self.methods[st.name] = fi
             elif isinstance(st, ast.Assign) and len(st.targets) == 1 and isinstance(st.targets[0], ast.Name):
                 self.attrs[st.targets[0].id] = st.value
@@ -62,6 +77,8 @@ class ClassInfo(object):
                 g = self.methods.get(self._unmangle(names[0])) if names and names[0] else None
                 s = self.methods.get(self._unmangle(names[1])) if len(names) > 1 and names[1] else None
                 self.properties[k] = (g, s)
+        for k, (g, s_) in deco_props.items():
+            self.properties[k] = (g, s_)
 
     def _unmangle(self, name):
         return name
@@ -173,6 +190,125 @@ def _local_bindings(fn):
 
 
 NLVEC = '__nl__'
+
+
+def desugar_table_setattr(tree):
+    """Normal form for table-driven attribute initialisation:
+
+        custom = {'sorted': sorted, 'tuple': tuple, ...}            # a dict literal with constant string keys, bound once
+        for name, default in custom.items():
+            setattr(self, '_' + name, kwds.pop(name, default))
+
+    is the sequence  self._sorted = kwds.pop('sorted', sorted); self._tuple = kwds.pop('tuple', tuple); ...  (dict literals iterate in source order).
+    The loop is replaced by those assignments when its body is exactly one setattr whose attribute name folds to a constant for every row."""
+    import copy as _copy
+    changed = 0
+    for fn in [n for n in ast.walk(tree) if isinstance(n, ast.FunctionDef)]:
+        tables = {}
+        for st in fn.body:
+            if isinstance(st, ast.Assign) and len(st.targets) == 1 and isinstance(st.targets[0], ast.Name) and isinstance(st.value, ast.Dict) \
+                    and st.value.keys and all(isinstance(k, ast.Constant) and isinstance(k.value, str) for k in st.value.keys):
+                tables[st.targets[0].id] = st.value
+        stores = {}
+        for x in ast.walk(fn):
+            if isinstance(x, ast.Name) and isinstance(x.ctx, ast.Store):
+                stores[x.id] = stores.get(x.id, 0) + 1
+        for holder in [n for n in ast.walk(fn) if isinstance(getattr(n, 'body', None), list)]:
+            for fld in ('body', 'orelse', 'finalbody'):
+                blk = getattr(holder, fld, None)
+                if not isinstance(blk, list):
+                    continue
+                out = []
+                for st in blk:
+                    rows = None
+                    if isinstance(st, ast.For) and not st.orelse and isinstance(st.target, ast.Tuple) and len(st.target.elts) == 2 \
+                            and all(isinstance(t, ast.Name) for t in st.target.elts) and len(st.body) == 1 and isinstance(st.iter, ast.Call) \
+                            and isinstance(st.iter.func, ast.Attribute) and st.iter.func.attr == 'items' and not st.iter.args:
+                        src_ = st.iter.func.value
+                        d_ = src_ if isinstance(src_, ast.Dict) else tables.get(src_.id) if isinstance(src_, ast.Name) and stores.get(src_.id) == 1 else None
+                        if d_ is not None and all(isinstance(k, ast.Constant) and isinstance(k.value, str) for k in d_.keys):
+                            rows = list(zip(d_.keys, d_.values))
+                    b = st.body[0] if rows else None
+                    if rows and isinstance(b, ast.Expr) and isinstance(b.value, ast.Call) and isinstance(b.value.func, ast.Name) and b.value.func.id == 'setattr' \
+                            and len(b.value.args) == 3 and not b.value.keywords:
+                        kn, vn = st.target.elts[0].id, st.target.elts[1].id
+                        new = []
+                        for k, v in rows:
+                            class Sub(ast.NodeTransformer):
+                                def visit_Name(self, node):
+                                    if isinstance(node.ctx, ast.Load) and node.id == kn:
+                                        return ast.copy_location(ast.Constant(value=k.value), node)
+                                    if isinstance(node.ctx, ast.Load) and node.id == vn:
+                                        return ast.copy_location(_copy.deepcopy(v), node)
+                                    return node
+
+                                def visit_BinOp(self, node):
+                                    self.generic_visit(node)
+                                    if isinstance(node.op, ast.Add) and isinstance(node.left, ast.Constant) and isinstance(node.right, ast.Constant) \
+                                            and isinstance(node.left.value, str) and isinstance(node.right.value, str):
+                                        return ast.copy_location(ast.Constant(value=node.left.value + node.right.value), node)
+                                    return node
+                            obj_, attr_, val_ = [Sub().visit(_copy.deepcopy(a)) for a in b.value.args]
+                            if not (isinstance(attr_, ast.Constant) and isinstance(attr_.value, str) and attr_.value.isidentifier()):
+                                new = None
+                                break
+                            asg = ast.Assign(targets=[ast.Attribute(value=obj_, attr=attr_.value, ctx=ast.Store())], value=val_)
+                            ast.copy_location(asg, st)
+                            ast.fix_missing_locations(asg)
+                            new.append(asg)
+                        if new:
+                            out.extend(new)
+                            changed += 1
+                            continue
+                    out.append(st)
+                setattr(holder, fld, out)
+    return changed
+
+
+def desugar_namespace_counters(tree):
+    """Normal form for closure state, second spelling: `stats = SimpleNamespace(hit=0, miss=0, load=0)` updated with `stats.hit += 1` is the list
+    `stats = [0, 0, 0]` updated with `stats[0] += 1`.  The constructor call (integer keyword arguments only) becomes the list literal in keyword
+    order, every `stats.<field>` in the function and its nested functions the subscript with that field's index.  A use of the namespace as a whole
+    (passed on, returned, vars(stats)) disqualifies the rewrite - the object is then left as written."""
+    changed = 0
+    for outer in [n for n in ast.walk(tree) if isinstance(n, ast.FunctionDef)]:
+        for st in list(outer.body):
+            if not (isinstance(st, ast.Assign) and len(st.targets) == 1 and isinstance(st.targets[0], ast.Name) and isinstance(st.value, ast.Call)):
+                continue
+            f = st.value.func
+            fname = f.id if isinstance(f, ast.Name) else f.attr if isinstance(f, ast.Attribute) else None
+            if fname != 'SimpleNamespace' or st.value.args or not st.value.keywords:
+                continue
+            if not all(k.arg and isinstance(k.value, ast.Constant) and type(k.value.value) is int for k in st.value.keywords):
+                continue
+            var = st.targets[0].id
+            fields = [k.arg for k in st.value.keywords]
+            index = dict((n, i) for i, n in enumerate(fields))
+            # every other occurrence of the name is `var.<field>`
+            parent = {}
+            for x in ast.walk(outer):
+                for c in ast.iter_child_nodes(x):
+                    parent[c] = x
+            uses = [x for x in ast.walk(outer) if isinstance(x, ast.Name) and x.id == var and x is not st.targets[0]]
+            if not uses or not all(isinstance(parent.get(x), ast.Attribute) and parent[x].value is x and parent[x].attr in index for x in uses):
+                continue
+            if any(isinstance(x, (ast.Nonlocal, ast.Global)) and var in x.names for x in ast.walk(outer)):
+                continue
+
+            class T(ast.NodeTransformer):
+                def visit_Attribute(self, node):
+                    self.generic_visit(node)
+                    if isinstance(node.value, ast.Name) and node.value.id == var and node.attr in index:
+                        new = ast.Subscript(value=node.value, slice=ast.Constant(value=index[node.attr]), ctx=node.ctx)
+                        return ast.copy_location(new, node)
+                    return node
+            lst = ast.List(elts=[k.value for k in st.value.keywords], ctx=ast.Load())
+            ast.copy_location(lst, st.value)
+            st.value = lst
+            T().visit(outer)
+            ast.fix_missing_locations(outer)
+            changed += 1
+    return changed
 
 
 def desugar_nonlocal_counters(tree):
@@ -288,7 +424,7 @@ class Module(object):
             self.tree = ast.parse(self.text, filename=path)
         except SyntaxError as e:
             raise AnalysisError('cannot parse %s: %s' % (rel, e))
-        self.desugared = desugar_nonlocal_counters(self.tree)
+        self.desugared = desugar_nonlocal_counters(self.tree) + desugar_namespace_counters(self.tree) + desugar_table_setattr(self.tree)
         self.classes = {}      # label -> ClassInfo  (label includes guard)
         self.classes_by_name = {}  # name -> [ClassInfo]
         self.functions = {}    # name -> FuncInfo (module level, incl. conditional arms)
